@@ -47,7 +47,6 @@ const B_REAL: [f64; 4] = [-0.5, 0.2, 0.7, 1.5];
 const B_REAL_THR: [f64; 3] = [0.0, 0.5, 0.7];
 const B_SHIFT: [f64; 8] = [0.0, 0.25, -1.0, 3.0, 0.125, -0.375, 10.0, -7.5];
 const C_ALPH: [f64; 3] = [0.0, 1.0, 2.0];
-const C_LABELS: usize = 4; // categorical label values 0..=3 (gaps = empty classes)
 const ALPHAS: [[f64; 3]; 8] = [
     [1.0, 0.01, 5.0],
     [1.0, 0.05, 2.0],
@@ -173,14 +172,14 @@ thread_local! {
 /// Every labelling of n rows, lexicographic (simplest first).
 /// G/M/B: onto exactly k classes (class indices 0..k-1; Gaussian: every class has >= 2 rows, a
 /// one-row class has zero variance and is outside "valid training set").
-/// C: label VALUES in 0..C_LABELS with at least two distinct values (k is ignored); values that do
-/// not occur below the maximum are empty classes.
+/// C: label VALUES in 0..k with at least two distinct values; values that do not occur below the
+/// maximum are empty classes.
 fn labellings(v: V, n: usize, k: usize) -> Rc<Vec<Vec<u8>>> {
     let key = (v as u8, n, k);
     if let Some(l) = LABS.with(|c| c.borrow().get(&key).cloned()) {
         return l;
     }
-    let base = if v == V::C { C_LABELS } else { k };
+    let base = k;
     let mut out = Vec::new();
     let mut cur = vec![0u8; n];
     loop {
@@ -435,7 +434,7 @@ fn run_lattice(job: &Job) {
         let lm = label_map(k, cfg[0]);
         (lab.iter().map(|c| lm[*c as usize]).collect(), k)
     };
-    let queries = if v == V::C {
+    let queries: Rc<Vec<Vec<f64>>> = if v == V::C {
         // every in-range category code of every feature
         let per: Vec<Vec<f64>> = (0..p)
             .map(|j| {
@@ -443,16 +442,36 @@ fn run_lattice(job: &Job) {
                 (0..=mx).map(|c| c as f64).collect()
             })
             .collect();
-        lattice(&per)
+        Rc::new(lattice(&per))
     } else {
-        lattice(&vec![alph.clone(); p])
+        return run_with_cached_queries(v, real, seed, asz, p, &alph, x, y, kk, cfg);
+    };
+    let inst = Inst { v, x, y, alpha: ALPHAS[(seed % 8) as usize][cfg[1]], priors: None, bin: None, queries };
+    execute(&inst, false);
+}
+
+thread_local! {
+    static QUERIES: RefCell<BTreeMap<(u8, bool, u64, usize, usize), Rc<Vec<Vec<f64>>>>> = RefCell::new(BTreeMap::new());
+}
+
+/// G/M/B: the query rows are the full alphabet^p lattice, independent of the training set.
+#[allow(clippy::too_many_arguments)]
+fn run_with_cached_queries(v: V, real: bool, seed: u64, asz: usize, p: usize, alph: &[f64], x: Vec<Vec<f64>>, y: Vec<f64>, k: usize, cfg: Cfg) {
+    let key = (v as u8, real, seed, asz, p);
+    let queries = match QUERIES.with(|c| c.borrow().get(&key).cloned()) {
+        Some(q) => q,
+        None => {
+            let q = Rc::new(lattice(&vec![alph.to_vec(); p]));
+            QUERIES.with(|c| c.borrow_mut().insert(key, q.clone()));
+            q
+        }
     };
     let inst = Inst {
         v,
         x,
         y,
         alpha: ALPHAS[(seed % 8) as usize][cfg[1]],
-        priors: if v == V::C { None } else { user_priors(kk, cfg[2]) },
+        priors: user_priors(k, cfg[2]),
         bin: if v == V::B { binarize(real, seed, cfg[3]) } else { None },
         queries,
     };
@@ -557,7 +576,7 @@ fn run_family(job: &Job) {
         alpha: ALPHAS[(seed % 8) as usize][cfg[1]],
         priors: if v == V::C { None } else { user_priors(k, cfg[2]) },
         bin: if v == V::B { binarize(real, seed, cfg[3]) } else { None },
-        queries,
+        queries: Rc::new(queries),
     };
     mc::count("family_members");
     execute(&inst, false);
@@ -594,7 +613,7 @@ fn run_goff(job: &Job) {
     }
     let lm = label_map(k, 0);
     let y: Vec<f64> = lab.iter().map(|c| lm[*c as usize]).collect();
-    let queries = x.clone();
+    let queries = Rc::new(x.clone());
     let inst = Inst { v: V::G, x, y, alpha: 1.0, priors: None, bin: None, queries };
     mc::count("offset_instances");
     execute(&inst, true);
@@ -653,79 +672,55 @@ impl Harness for C11 {
     fn plan(&self, tier: Tier, seed: u64) -> Plan {
         let t = tier.is_thorough();
         let mut pl = Planner { jobs: Vec::new(), seed, chunk: if t { 6_000_000 } else { 400_000 }, leaves: 0 };
+        // (variant, real-valued Bernoulli data, n, p, k, alphabet size, configuration set) — see NOTES.md.
+        // configuration set: 1 = full cross product, 3 = pairwise-covering third, 0 = 3-element diagonal
         // ---- Gaussian: k=2 needs n>=4, k=3 needs n>=6 (every class >= 2 rows with non-zero variance)
-        pl.lat(V::G, false, 4, 1, 2, 4, 1);
-        pl.lat(V::G, false, 4, 2, 2, 4, 1);
-        pl.lat(V::G, false, 5, 1, 2, 4, 1);
-        pl.lat(V::G, false, 6, 1, 2, 4, 1);
-        pl.lat(V::G, false, 6, 1, 3, 4, 1);
-        pl.lat(V::G, false, 4, 3, 2, 3, 3);
-        pl.lat(V::G, false, 6, 2, 3, 3, if t { 1 } else { 0 });
-        pl.lat(V::G, false, 5, 2, 2, 4, if t { 1 } else { 0 });
-        if t {
-            pl.lat(V::G, false, 6, 2, 2, 3, 1);
-            pl.lat(V::G, false, 7, 1, 2, 4, 1);
-            pl.lat(V::G, false, 7, 1, 3, 4, 1);
-            pl.lat(V::G, false, 6, 2, 3, 4, 0);
+        let g: &[(usize, usize, usize, usize, usize)] = if t {
+            &[(4, 1, 2, 4, 1), (4, 2, 2, 4, 1), (5, 1, 2, 4, 1), (6, 1, 2, 4, 1), (6, 1, 3, 4, 1), (4, 3, 2, 3, 1), (5, 2, 2, 3, 1), (6, 2, 3, 2, 1),
+              (7, 1, 2, 4, 1), (7, 1, 3, 4, 3), (5, 2, 2, 4, 3), (6, 2, 2, 3, 0), (6, 2, 3, 3, 1), (8, 1, 4, 3, 3)]
+        } else {
+            &[(4, 1, 2, 4, 1), (4, 2, 2, 4, 3), (5, 1, 2, 4, 1), (6, 1, 2, 4, 3), (6, 1, 3, 4, 3), (4, 3, 2, 3, 0), (5, 2, 2, 3, 0), (6, 2, 3, 2, 1)]
+        };
+        for &(n, p, k, a, part) in g {
+            pl.lat(V::G, false, n, p, k, a, part);
         }
         // ---- multinomial
-        for n in 2..=3 {
-            for p in 1..=3 {
-                for k in 2..=n {
-                    pl.lat(V::M, false, n, p, k, 4, 1);
+        let m: &[(usize, usize, usize, usize)] = if t {
+            &[(2, 1, 4, 1), (2, 2, 4, 1), (2, 3, 4, 1), (3, 1, 4, 1), (3, 2, 4, 1), (3, 3, 4, 3), (4, 1, 4, 1), (4, 2, 4, 3), (4, 3, 3, 0), (5, 1, 4, 1), (5, 2, 3, 0), (2, 4, 4, 1), (3, 4, 3, 0)]
+        } else {
+            &[(2, 1, 4, 1), (2, 2, 4, 1), (2, 3, 4, 1), (3, 1, 4, 1), (3, 2, 4, 3), (3, 3, 3, 0), (4, 1, 4, 3), (4, 2, 3, 0)]
+        };
+        for &(n, p, a, part) in m {
+            for k in 2..=n.min(3) {
+                if t && (n, p) == (4, 3) && k == 3 {
+                    continue; // 3^12 x 36 labellings x 3: beyond the thorough budget (k=3 with p=3 is covered at n=3)
                 }
+                pl.lat(V::M, false, n, p, k, a, part);
             }
         }
-        for k in 2..=3 {
-            pl.lat(V::M, false, 4, 1, k, 4, 1);
-            pl.lat(V::M, false, 4, 2, k, 4, if t { 1 } else { 0 });
-            pl.lat(V::M, false, 4, 2, k, 3, if t { 1 } else { 3 });
-            if t {
-                pl.lat(V::M, false, 5, 1, k, 4, 1);
-                pl.lat(V::M, false, 5, 2, k, 3, 3);
-                pl.lat(V::M, false, 5, 2, k, 4, 0);
-                pl.lat(V::M, false, 4, 3, k, 3, 3);
+        // ---- Bernoulli, 0/1 data (binarize none / 0 / 0.5) and thresholded reals (thresholds 0 / 0.5 / 0.7)
+        let b: &[(bool, usize, usize, usize, usize)] = if t {
+            &[(false, 2, 1, 2, 1), (false, 2, 2, 2, 1), (false, 2, 3, 2, 1), (false, 3, 1, 2, 1), (false, 3, 2, 2, 1), (false, 3, 3, 2, 1), (false, 4, 1, 2, 1), (false, 4, 2, 2, 1),
+              (false, 4, 3, 2, 1), (false, 4, 4, 2, 0), (false, 5, 1, 2, 1), (false, 5, 2, 2, 1), (false, 5, 3, 2, 0), (false, 6, 2, 2, 0),
+              (true, 2, 1, 4, 1), (true, 2, 2, 4, 1), (true, 3, 1, 4, 1), (true, 3, 2, 4, 1), (true, 4, 1, 4, 1), (true, 4, 2, 3, 1), (true, 4, 2, 4, 0), (true, 5, 1, 4, 1), (true, 5, 2, 3, 0)]
+        } else {
+            &[(false, 2, 1, 2, 1), (false, 2, 2, 2, 1), (false, 2, 3, 2, 1), (false, 3, 1, 2, 1), (false, 3, 2, 2, 1), (false, 3, 3, 2, 3), (false, 4, 1, 2, 1), (false, 4, 2, 2, 3), (false, 4, 3, 2, 0),
+              (true, 2, 1, 4, 1), (true, 2, 2, 4, 1), (true, 3, 1, 4, 1), (true, 3, 2, 4, 0), (true, 3, 2, 3, 3), (true, 4, 1, 4, 3), (true, 4, 2, 3, 0)]
+        };
+        for &(real, n, p, a, part) in b {
+            for k in 2..=n.min(3) {
+                pl.lat(V::B, real, n, p, k, a, part);
             }
         }
-        // ---- Bernoulli, 0/1 data and thresholded reals
-        for n in 2..=3 {
-            for p in 1..=3 {
-                for k in 2..=n {
-                    pl.lat(V::B, false, n, p, k, 2, 1);
-                    if p <= 2 {
-                        pl.lat(V::B, true, n, p, k, 4, 1);
-                    }
-                }
-            }
-        }
-        for k in 2..=3 {
-            for p in 1..=2 {
-                pl.lat(V::B, false, 4, p, k, 2, 1);
-            }
-            pl.lat(V::B, false, 4, 3, k, 2, if t { 1 } else { 3 });
-            pl.lat(V::B, true, 4, 1, k, 4, 1);
-            pl.lat(V::B, true, 4, 2, k, 3, if t { 1 } else { 0 });
-            if t {
-                pl.lat(V::B, true, 4, 2, k, 4, 3);
-                pl.lat(V::B, false, 5, 1, k, 2, 1);
-                pl.lat(V::B, false, 5, 2, k, 2, 1);
-                pl.lat(V::B, false, 5, 3, k, 2, 3);
-                pl.lat(V::B, false, 4, 4, k, 2, 3);
-                pl.lat(V::B, true, 5, 1, k, 4, 1);
-                pl.lat(V::B, true, 5, 2, k, 3, 0);
-            }
-        }
-        // ---- categorical (labels are values 0..=3, so k is not a dimension)
-        for n in 2..=4 {
-            for p in 1..=2 {
-                pl.lat(V::C, false, n, p, 0, 3, 1);
-            }
-        }
-        pl.lat(V::C, false, 3, 3, 0, 3, 1);
-        if t {
-            pl.lat(V::C, false, 5, 1, 0, 3, 1);
-            pl.lat(V::C, false, 5, 2, 0, 3, 1);
-            pl.lat(V::C, false, 4, 3, 0, 2, 1);
+        // ---- categorical: label VALUES 0..=cl-1 (gaps = empty classes); the class count is not a dimension,
+        //      the `k` slot carries cl
+        let c: &[(usize, usize, usize, usize)] = if t {
+            &[(2, 1, 4, 3), (2, 2, 4, 3), (3, 1, 4, 3), (3, 2, 4, 3), (4, 1, 4, 3), (4, 2, 4, 3), (3, 3, 4, 3), (5, 1, 4, 3), (5, 2, 3, 3), (5, 2, 4, 2), (4, 3, 4, 2), (3, 2, 6, 3)]
+        } else {
+            &[(2, 1, 4, 3), (2, 2, 4, 3), (3, 1, 4, 3), (3, 2, 4, 3), (4, 1, 4, 3), (4, 2, 3, 3), (4, 2, 4, 2), (3, 3, 3, 2)]
+        };
+        for &(n, p, cl, a) in c {
+            pl.lat(V::C, false, n, p, cl, a, 1);
         }
         let lattice_leaves = pl.leaves;
         let mut jobs = pl.jobs;
@@ -744,6 +739,9 @@ impl Harness for C11 {
         // ---- Gaussian lattice at large offsets
         for off in 0..GOFF.len() {
             for (n, k) in [(4usize, 2usize), (5, 2), (6, 3)] {
+                if n == 6 && off != 2 {
+                    continue;
+                }
                 jobs.push(Job::new(format!("goff-n{}-k{}-off{:e}", n, k, GOFF[off]), json!({"kind": "goff", "n": n, "k": k, "off": off})));
             }
         }
